@@ -57,6 +57,10 @@ func (a *chunkError) unmarshal(raw []byte) error {
 		return fmt.Errorf("%w, actually is %s", ErrChunkTypeNotCtError, a.typ.String())
 	}
 
+	// raw also holds whatever is bundled after this chunk: the error causes
+	// are the bytes inside this chunk's own length only.
+	raw = raw[:chunkHeaderSize+len(a.raw)]
+
 	offset := chunkHeaderSize
 	for len(raw)-offset >= 4 {
 		e, err := buildErrorCause(raw[offset:])
